@@ -14,7 +14,7 @@ cp $SRC/patch.diff $OUT/patch.diff
 cp $SRC/meta.json $OUT/meta.json 2>/dev/null
 DEMO=$(ls $SRC/demo_test.go $SRC/demo/main.go 2>/dev/null | head -1)
 cp $DEMO $OUT/ 2>/dev/null
-RUNPAT=$(grep -o 'func Test[A-Za-z0-9_]*' $DEMO | head -1 | sed 's/func //')
+RUNPAT="($(grep -o 'func Test[A-Za-z0-9_]*' $DEMO | sed 's/func //' | sort -u | paste -sd'|'))\$"
 PKGDIR=.
 # demos may belong to package mocks
 if grep -q '^package mocks' $DEMO; then PKGDIR=mocks; fi
